@@ -160,6 +160,9 @@ def server_scenario_st(tier):
         # on its channel)
         'manager': st.sampled_from(['plain', 'plain', 'pubsub']),
         'decisions': st.lists(decision, min_size=1, max_size=5),
+        # namespaces whose disconnect handler fails (an application error)
+        # when the client or its transport ended the connection
+        'disc_fault': st.sampled_from([[], [], ['/'], ['/x'], ['/', '/c']]),
         'init': st.lists(st.tuples(tt, st.integers(0, 2)), min_size=2,
                          max_size=5),
         'ops': st.lists(op, min_size=4, max_size=50 if big else 22)})
@@ -278,6 +281,9 @@ def _run(case, aio, coro, setup, w, socketio, n_transports):
 
     def on_disconnect(sid, reason):
         trace.append(('handler', 'disconnect', [sid, reason]))
+        if reason != sio.reason.SERVER_DISCONNECT and \
+                ns_of(sid) in case.get('disc_fault', ()):
+            raise RuntimeError('application handler fault')
     if aio:
         # the connect handler is always a coroutine on the asyncio server,
         # so that it can disconnect the client it is being asked about
